@@ -4,11 +4,7 @@
 //! `Unspec` and the case is not judged.
 
 use crate::state::Views;
-use essential_types::{
-    convert::{bytes_from_word, u8_32_from_word_4, u8_64_from_word_8, word_4_from_u8_32},
-    solution::Solution,
-    ContentAddress, Key, Word,
-};
+use essential_types::{solution::Solution, ContentAddress, Key, Word};
 use essential_vm::asm::{self, Op, ToOpcode};
 use serde::{Deserialize, Serialize};
 use std::{collections::BTreeSet, sync::Arc};
@@ -148,6 +144,31 @@ impl<'a> Env<'a> {
     fn this(&self) -> &Solution {
         &self.solutions[self.index]
     }
+}
+
+// Own big-endian conversions (the `convert` module of the types crate is code under test).
+pub fn word_4_from_u8_32(b: [u8; 32]) -> [Word; 4] {
+    std::array::from_fn(|i| Word::from_be_bytes(b[8 * i..8 * i + 8].try_into().unwrap()))
+}
+pub fn word_8_from_u8_64(b: [u8; 64]) -> [Word; 8] {
+    std::array::from_fn(|i| Word::from_be_bytes(b[8 * i..8 * i + 8].try_into().unwrap()))
+}
+pub fn u8_32_from_word_4(w: [Word; 4]) -> [u8; 32] {
+    let mut out = [0u8; 32];
+    for (i, x) in w.iter().enumerate() {
+        out[8 * i..8 * i + 8].copy_from_slice(&x.to_be_bytes());
+    }
+    out
+}
+pub fn u8_64_from_word_8(w: [Word; 8]) -> [u8; 64] {
+    let mut out = [0u8; 64];
+    for (i, x) in w.iter().enumerate() {
+        out[8 * i..8 * i + 8].copy_from_slice(&x.to_be_bytes());
+    }
+    out
+}
+fn bytes_from_word(w: Word) -> [u8; 8] {
+    w.to_be_bytes()
 }
 
 fn us(w: Word) -> R<usize> {
@@ -655,7 +676,18 @@ pub fn step(m: &mut Machine, op: Op, env: &mut Env, depth: usize) -> R<Flow> {
                     return Err(Fail::Err);
                 }
                 match essential_sign::recover_hash(hash, &essential_types::Signature(sig, id as u8)) {
-                    Ok(pk) => m.pushn(&essential_sign::encode::public_key(&pk))?,
+                    Ok(pk) => {
+                        let ser = pk.serialize();
+                        let mut first = [0u8; 32];
+                        first.copy_from_slice(&ser[..32]);
+                        m.pushn(&word_4_from_u8_32(first))?;
+                        m.push(ser[32] as Word)?;
+                        // and the sign crate's own word encoding must agree with the documented one
+                        let enc = essential_sign::encode::public_key(&pk);
+                        if enc[..4] != word_4_from_u8_32(first) || enc[4] != ser[32] as Word {
+                            return Err(Fail::Unspec("sign-encode-disagrees"));
+                        }
+                    }
                     Err(_) => m.pushn(&[0; 5])?,
                 }
             }
